@@ -17,6 +17,8 @@ mkdir -p /verif/seeded/$NAME && cp patch.diff /verif/seeded/$NAME/ && cp $DEMO /
 cd /verif
 unset CARGO_TARGET_DIR
 git -C /repo apply /verif/seeded/$NAME/patch.diff || exit 3
+mkdir -p /verif/build/ev-backup && cp /verif/evidence/*.json /verif/build/ev-backup/
 for P in "$@"; do ./check $P | tail -2; done
+cp /verif/build/ev-backup/*.json /verif/evidence/
 git -C /repo checkout -- .
 git -C /repo status --short
